@@ -1,5 +1,7 @@
 package xpath
 
+import "math"
+
 // The XPath number operator function list.
 
 type logical func(iterator, string, interface{}, interface{}) bool
@@ -291,6 +293,8 @@ var divFunc = func(t iterator, m, n interface{}) interface{} {
 // modFunc is an 'MOD' operator.
 var modFunc = func(t iterator, m, n interface{}) interface{} {
 	return numericExpr(t, m, n, func(a, b float64) float64 {
-		return float64(int(a) % int(b))
+		// XPath mod is the remainder of a truncating division on doubles (like
+		// Go's math.Mod): "5.5 mod 2" is 1.5 and "1 mod 0" is NaN, not a crash.
+		return math.Mod(a, b)
 	})
 }
